@@ -4,6 +4,7 @@ import (
 	"context"
 	"fmt"
 	"sync"
+	"sync/atomic"
 	"testing"
 	"time"
 
@@ -63,16 +64,16 @@ func TestC17Threads(t *testing.T) {
 			err       error
 			cancelled bool
 		}
-		var wg sync.WaitGroup
+		var readersWG, writersWG sync.WaitGroup
 		results := make(chan result, 256)
 		start := make(chan struct{})
 		for _, p := range plans {
 			for r := 0; r < p.readers; r++ {
 				cancelled := r < p.cancel
 				rctx, rcancel := context.WithCancel(ctx)
-				wg.Add(1)
+				readersWG.Add(1)
 				go func() {
-					defer wg.Done()
+					defer readersWG.Done()
 					defer rcancel()
 					<-start
 					if cancelled {
@@ -83,9 +84,9 @@ func TestC17Threads(t *testing.T) {
 				}()
 			}
 			for w := 0; w < p.writers; w++ {
-				wg.Add(1)
+				writersWG.Add(1)
 				go func() {
-					defer wg.Done()
+					defer writersWG.Done()
 					<-start
 					if err := db.Store(ctx, p.k.duty, core.SignedDataSet{p.k.pubkey: mkData(p.k.duty, 1, 0)}); err != nil {
 						results <- result{k: p.k, err: fmt.Errorf("store: %w", err)}
@@ -94,15 +95,44 @@ func TestC17Threads(t *testing.T) {
 			}
 		}
 		close(start)
-		fin := make(chan struct{})
-		go func() { wg.Wait(); close(fin) }()
-		select {
-		case <-fin:
-		case <-time.After(20 * time.Second):
+		wait := func(wg *sync.WaitGroup, d time.Duration) bool {
+			fin := make(chan struct{})
+			go func() { wg.Wait(); close(fin) }()
+			select {
+			case <-fin:
+				return true
+			case <-time.After(d):
+				return false
+			}
+		}
+		if !wait(&writersWG, 30*time.Second) {
 			cancelAll()
-			// distinguish a lost wake-up from a slow machine: every key was stored (writers are done
-			// when only readers remain), so a reader that is still pending now was not woken.
-			panic("HARNESS-ERROR: readers or writers still pending after 20 s of wall clock (lost wake-up or overloaded machine); plan " + fmt.Sprint(plans) + " impl " + impl)
+			panic("HARNESS-ERROR: Store calls still running after 30 s of wall clock (overloaded machine?); impl " + impl)
+		}
+		// every key is stored now: a reader that does not return was not woken. To tell that from a
+		// starved machine a heartbeat goroutine must have made normal progress during the wait.
+		var beats int64
+		hbStop := make(chan struct{})
+		go func() {
+			tk := time.NewTicker(10 * time.Millisecond)
+			defer tk.Stop()
+			for {
+				select {
+				case <-tk.C:
+					atomic.AddInt64(&beats, 1)
+				case <-hbStop:
+					return
+				}
+			}
+		}()
+		ok := wait(&readersWG, 15*time.Second)
+		close(hbStop)
+		if !ok {
+			cancelAll()
+			if atomic.LoadInt64(&beats) < 500 {
+				panic("HARNESS-ERROR: readers pending and the machine is starved (heartbeat made little progress); impl " + impl)
+			}
+			rt.Fatalf("LOST WAKE-UP: %s: every key was stored (all Store calls returned) but a reader was still waiting 15 s later; plan %v", impl, plans)
 		}
 		close(results)
 		for r := range results {
